@@ -104,6 +104,9 @@ func Verif_C08_BookkeepingFilter() {
 
 // Verif_C08_EvictionLoop: one run of adjustMemoryUsage under each evicting policy.
 func c08EvictionLoop(name string) {
+	// (no write history in front of the first preset: under a policy that counts accesses an earlier
+	// write of the same name is one more access, and the access counts are this harness's model)
+	gNoHistory = true
 	s := c08Server(name)
 	s.config.MaxMemory = 1 << 50
 	maxKeys := 2
